@@ -58,7 +58,17 @@ class Scenario:
         self.saves_done_at_quiescent_exit = None
         self.result = None
         self.nontrivial = False
+        self.left_at_exit = None
+        self.overtaken: set[int] = set()
+        self._keep: list = []  # keeps overtaken jobs alive so their id() stays unique
         self.main = loop.create_task(self._main())
+        self.main.add_done_callback(self._on_main_done)
+
+    def _on_main_done(self, _task) -> None:
+        # what is still running at the moment the context has been left
+        self.left_at_exit = sorted(
+            getattr(t.get_coro(), "__qualname__", repr(t)) for t in self.loop.tasks() if not t.done() and t is not self.main
+        )
 
     async def _main(self):
         try:
@@ -69,6 +79,9 @@ class Scenario:
                 gw.nodes[9] = Node(9, 17, "2.1", sketch_name="added by body")
                 await self.exit_event.wait()
                 self.exit_time = self.loop.time()
+                # the body changes the registry once more just before it leaves
+                gw.nodes[9].battery_level = 77
+                gw.nodes[10] = Node(10, 18, "2.2", children={0: Child(0, 3, values={2: "late"})})
                 if self.cfg["body"] == "raise":
                     raise RuntimeError("body")
         except BaseException as exc:  # noqa: BLE001
@@ -81,11 +94,18 @@ class Scenario:
         evs = []
         jobs = self.loop.pending_jobs()
         if jobs:
-            j = jobs[0]  # jobs take effect in submission order
+            j = jobs[0]  # jobs take effect in submission order ...
             if j.fut.cancelled():
                 evs += ["job:run-cancelled", "job:drop-cancelled"]
             else:
                 evs.append("job")
+            # ... except that two jobs in flight on two pool threads may finish in either order: the next job
+            # may overtake the oldest one once (a job is never overtaken twice: no long stalls)
+            if len(jobs) > 1 and id(j) not in self.overtaken:
+                if jobs[1].fut.cancelled():
+                    evs += ["job2:run-cancelled", "job2:drop-cancelled"]
+                else:
+                    evs.append("job2")
         if not self.exit_fired:
             evs.append("exit")
         if self.clock_fires < MAX_CLOCK and self.loop.next_timer() is not None and not self.main.done():
@@ -94,7 +114,16 @@ class Scenario:
         return evs
 
     def fire(self, label: str) -> None:
-        if label == "job":
+        if label.startswith("job2"):
+            jobs = self.loop.pending_jobs()
+            self.overtaken.add(id(jobs[0]))
+            self._keep.append(jobs[0])
+            self.nontrivial = True
+            if label == "job2:drop-cancelled":
+                self.loop.drop_job(jobs[1])
+            else:
+                self.loop.run_job(jobs[1])
+        elif label == "job":
             self.loop.run_job(self.loop.pending_jobs()[0])
         elif label == "job:run-cancelled":
             self.nontrivial = True
@@ -145,7 +174,7 @@ class Scenario:
                 bad("hang", f"no enabled event while the context is unfinished (entered={self.entered})")
                 return viols
             kind, exc = self.result
-            if cfg["connect"] == "fail":
+            if cfg["connect"] in ("fail", "subscribe-fail"):
                 if not (kind == "raise" and isinstance(exc, TransportError)):
                     bad("connect-error-not-propagated", f"connect failed but the context gave {kind} {exc!r}")
             else:
@@ -194,6 +223,8 @@ class Scenario:
                             break
                         prev = max(prev, t)
             # leftovers
+            if self.left_at_exit:
+                bad("task-left-running", f"background tasks still running when the context had been left: {self.left_at_exit}")
             left = [t for t in self.loop.tasks() if not t.done()]
             if left:
                 names = sorted(getattr(t.get_coro(), "__qualname__", repr(t)) for t in left)
@@ -289,6 +320,8 @@ def make_transport(cfg, loop, sc):
         FakeClient.plan = {}
         if cfg["connect"] == "fail":
             FakeClient.plan["connect"] = MqttError("injected connect failure")
+        if cfg["connect"] == "subscribe-fail":
+            FakeClient.plan["subscribe"] = MqttError("injected subscribe failure")
         if cfg["disconnect"] == "fail":
             FakeClient.plan["exit"] = MqttError("injected disconnect failure")
         sc.disconnected = lambda: bool(FakeClient.instances) and FakeClient.instances[-1].exited == 1
@@ -326,6 +359,7 @@ def configs(ctx: core.Ctx) -> list:
             for disconnect in ("ok", "fail"):
                 out.append({"body": body, "connect": "ok", "disconnect": disconnect, "file": "present", "transport": kind})
         out.append({"body": "return", "connect": "fail", "disconnect": "ok", "file": "present", "transport": kind})
+    out.append({"body": "return", "connect": "subscribe-fail", "disconnect": "ok", "file": "present", "transport": "mqtt"})
     return out
 
 
@@ -355,7 +389,7 @@ def run(ctx: core.Ctx) -> core.Report:
         coverage=cov,
         violations=res["violations"],
         assumptions=[
-            "executor jobs take effect in submission order; a cancelled job either takes effect (worker already running it) or is dropped (still queued)",
+            "executor jobs take effect in submission order, except that the next job may overtake the oldest pending one once (two pool threads in flight); a cancelled job either takes effect (worker already running it) or is dropped (still queued)",
             "virtual time only moves on an explicit clock event; horizon 3 timer firings (45 virtual minutes)",
             "in-memory file system behind aiofiles.threadpool.sync_open",
         ],
